@@ -38,7 +38,13 @@ SUBLISTS = [("i1",), ("i2",), ("i3",), ("i1", "i2"), ("i2", "i1"), ("i1", "i3"),
 ITEMS = ([None, ("lit", "i3"), ("lit", "i1")] + [("any", L) for L in SUBLISTS] + [("all", L) for L in SUBLISTS]
          + [("match", "MItem", 1), ("match", "MItem", 2), ("match", "MSubItem", 1), ("match", "MSubItem", 2),
             ("match_sub", "MSubItem"), ("select", "MItem", 1), ("select", "MSubItem", 1)]
-         + [("select_any", L) for L in SUBLISTS[:4]] + [("select_all", L) for L in SUBLISTS[3:5]])
+         + [("select_any", L) for L in SUBLISTS[:4]] + [("select_all", L) for L in SUBLISTS[3:5]]
+         # empty literal lists: no element can be common with nothing; the same set of elements as nothing is nothing
+         + [("any", ()), ("all", ())])
+# a collection of builtin values (labels derived from the tag: 1 -> [x, y], 2 -> [y], 3 -> [])
+LABELS = [("lit", "x"), ("lit", "y"), ("any", ("x",)), ("any", ("x", "z")), ("any", ("z",)), ("all", ("y",)), ("all", ("y", "x")),
+          ("all", ())]
+LABELS_OF_TAG = {1: ["x", "y"], 2: ["y"], 3: []}
 
 
 def cases(tier, seed):
@@ -47,6 +53,9 @@ def cases(tier, seed):
         if t is None and m is None and i is None:
             continue
         out.append((t, m, i))
+    for t in TAG:
+        for l in LABELS:
+            out.append((t, None, None, l))
     return out
 
 
@@ -71,7 +80,8 @@ def init_worker():
         for main in names:
             for L in lists:
                 for twin in ("", "'"):
-                    boxes.append(M.MBox(tag, it[main], [it[n] for n in L], f"b{tag}{main}[{','.join(L)}]{twin}"))
+                    boxes.append(M.MBox(tag, it[main], [it[n] for n in L], f"b{tag}{main}[{','.join(L)}]{twin}",
+                                        list(LABELS_OF_TAG[tag])))
     dom = []
     for n, b in enumerate(boxes):
         dom.append(b)
@@ -82,10 +92,18 @@ def init_worker():
 
 def predicate(case):
     it = _WORLD[0]
-    t, m, i = case
+    t, m, i = case[:3]
+    l = case[3] if len(case) > 3 else None
     M = _M
 
     def ok(b):
+        if l is not None:
+            if l[0] == "lit" and l[1] not in b.labels:
+                return False
+            if l[0] == "any" and not any(v in b.labels for v in l[1]):
+                return False
+            if l[0] == "all" and set(b.labels) != set(l[1]):
+                return False
         if t is not None:
             if t[0] == "lit" and not b.tag == t[1]:
                 return False
@@ -125,9 +143,10 @@ def build(case):
     from krrood.entity_query_language.quantify_entity import an
     it, boxes, dom, parts = _WORLD
     M = _M
-    t, m, i = case
+    t, m, i = case[:3]
     kw = {}
     selects = {}
+
     if t is not None:
         kw["tag"] = t[1] if t[0] == "lit" else list(t[1])
     if m is not None:
@@ -181,6 +200,9 @@ def build(case):
         elif k == "select_all":
             selects["items"] = select_all([it[n] for n in i[1]])
             kw["items"] = selects["items"]
+    if len(case) > 3:
+        l = case[3]
+        kw["labels"] = l[1] if l[0] == "lit" else match_any(list(l[1])) if l[0] == "any" else match_all(list(l[1]))
     if selects:
         root = entity_selection(M.MBox, list(dom))
     else:
@@ -193,7 +215,7 @@ def run_case(case):
     it, boxes, dom, parts = _WORLD
     ok = predicate(case)
     exp = {id(b): b for b in boxes if ok(b)}
-    label = f"pattern tag={case[0]} main={case[1]} items={case[2]}"
+    label = f"pattern tag={case[0]} main={case[1]} items={case[2]}" + (f" labels={case[3]}" if len(case) > 3 else "")
     try:
         q, root, selects = build(case)
         rows = list(q.evaluate())
@@ -232,7 +254,7 @@ def run_case(case):
     if 0 < len(exp) < len(boxes):
         res.nontrivial_key = case
     feats = set()
-    for slot, c in zip(("tag", "main", "items"), case):
+    for slot, c in zip(("tag", "main", "items", "labels"), case):
         if c is not None:
             feats.add(f"{slot}:{c[0]}")
     res.features = feats
@@ -252,6 +274,8 @@ def run_case(case):
 def existential_slot(case):
     """the existential constraint is the pattern's only (hence root) condition: only then is it evaluated once for all
     domain elements, which is when its value-based de-duplication crosses elements"""
+    if len(case) > 3:
+        return case[0] is None and case[3][0] == "any"
     return case[0] is None and case[1] is None and case[2] is not None and case[2][0] in ("any", "select_any")
 
 
@@ -268,7 +292,7 @@ def cluster_key(case, f):
 def finish(run):
     if run.exhaustive and not run.failures:
         for k in ("items:any", "items:all", "main:match2", "main:select", "tag:litlist", "main:match_select2", "main:select_select2", "main:match_select3",
-                  "main:select_select3"):
+                  "main:select_select3", "labels:any", "labels:all", "labels:lit"):
             if not run.features.get(k):
                 raise HarnessError("vacuous: " + k)
 
